@@ -181,13 +181,34 @@ def _convert_ifexp(node: ast.IfExp) -> libsbml.ASTNode:
     return sbml_node
 
 
+def _check_arity(func: str, node: ast.Call) -> None:
+    """Refuse calls that pass more (or other) arguments than the SBML node takes.
+
+    Otherwise `math.log(x, 10)` would be written as `ln(x)`.
+    """
+    expected = 1 if func in UNARY else 2 if func in BINARY else None
+    if node.keywords or (expected is not None and len(node.args) != expected):
+        msg = f"call to {func} with {len(node.args)} arguments"
+        raise NotImplementedError(msg)
+
+
+def _unary_node(func: str, typ: int, node: ast.Call) -> libsbml.ASTNode:
+    sbml_node = libsbml.ASTNode(typ)
+    if func == "log10":
+        # MathML log takes its base as the first child
+        base = libsbml.ASTNode(libsbml.AST_INTEGER)
+        base.setValue(10)
+        sbml_node.addChild(base)
+    sbml_node.addChild(_convert_node(node.args[0]))
+    return sbml_node
+
+
 def _convert_direct_call(node: ast.Call) -> libsbml.ASTNode:
     func = cast(ast.Name, node.func).id
+    _check_arity(func, node)
 
     if (typ := UNARY.get(func)) is not None:
-        sbml_node = libsbml.ASTNode(typ)
-        sbml_node.addChild(_convert_node(node.args[0]))
-        return sbml_node
+        return _unary_node(func, typ, node)
     if (typ := BINARY.get(func)) is not None:
         sbml_node = libsbml.ASTNode(typ)
         sbml_node.addChild(_convert_node(node.args[0]))
@@ -211,10 +232,9 @@ def _convert_library_call(node: ast.Call) -> libsbml.ASTNode:
     attr = func.attr
 
     if parent in ("math", "np", "numpy"):
+        _check_arity(attr, node)
         if (typ := UNARY.get(attr)) is not None:
-            sbml_node = libsbml.ASTNode(typ)
-            sbml_node.addChild(_convert_node(node.args[0]))
-            return sbml_node
+            return _unary_node(attr, typ, node)
         if (typ := BINARY.get(attr)) is not None:
             sbml_node = libsbml.ASTNode(typ)
             sbml_node.addChild(_convert_node(node.args[0]))
